@@ -105,6 +105,31 @@ theorem blrp_exclusive (s s' : St) (l : Lbl) (_h : Reachable cap batch buf s) (h
     all_goals (try subst hs)
     all_goals (first | simp_all | skip))
 
+/-- L3, the timeout — `timeoutExporter` is a synchronous wrapper. While exportSync is inside the user exporter's
+`Export`, no step other than that call's own return (`eEnd`) ends the call or starts another one: not the expiry of
+the per-export timeout (`eTimeout`, which changes nothing at all — it only cancels the context handed to the
+exporter), not any step of any other goroutine. So mutual exclusion of `Export` calls, and with it "nothing runs
+after Shutdown returned", do not depend on the user exporter honouring its context: an exporter that ignores the
+deadline delays the following exports, it never overlaps them. -/
+theorem blrp_export_synchronous (s s' : St) (l : Lbl) (h : Reachable cap batch buf s) (hs : step s l = some s')
+    (hb : s.eph = .busy) (hl : ∀ ok, l ≠ .eEnd ok) :
+    s'.eph = .busy ∧ s'.exported = s.exported ∧ (l = .eTimeout → s' = s) := by
+  have hx := blrp_exclusive s s' l h hs
+  refine ⟨?_, ?_, ?_⟩
+  · apply Classical.byContradiction
+    intro hn
+    obtain ⟨ok, hok⟩ := hx.2 hb hn
+    exact hl ok hok
+  · apply Classical.byContradiction
+    intro hn
+    have := (hx.1 hn).2.1
+    rw [hb] at this
+    exact EPhase.noConfusion this
+  · intro he
+    subst he
+    simp only [step, hb, if_true] at hs
+    exact (Option.some.inj hs).symm
+
 /-- L6 (partial: not for the early nil return of an `F38_applies` call) — nothing is exported after the Shutdown
 call that performed the shutdown has returned nil: from then
 on no step changes the exporter's log (the exportSync goroutine has exited). -/
